@@ -908,6 +908,7 @@ static int32 dtlsResendFlight(ssl_t *ssl, psBuf_t *out)
 {
     int32 rc;
     uint32 requiredLen = 0;      /* only added so far to get to compile */
+    unsigned char *newBuf;
 
 /*
     Reset to the MSN and epoch of the first message in the current flight
@@ -953,14 +954,22 @@ encode:
 
     if (rc == SSL_FULL)
     {
-        psFree(out->buf, ssl->bufferPool);
-        if ((out->buf = psMalloc(ssl->bufferPool, requiredLen)) == NULL)
+        /* Allocate first so that 'out' always describes a live buffer */
+        if ((newBuf = psMalloc(ssl->bufferPool, requiredLen)) == NULL)
         {
             return PS_MEM_FAIL;
         }
-        out->start = out->end = out->buf;
+        psFree(out->buf, ssl->bufferPool);
+        out->buf = out->start = out->end = newBuf;
         out->size = requiredLen;
         goto encode;
+    }
+    if (rc < 0 && rc != PS_PENDING)
+    {
+        /* The flight could not be rebuilt.  Whatever is in the buffer is
+            incomplete, so do not report it as a flight to send */
+        ssl->flags |= SSL_FLAGS_ERROR;
+        return rc;
     }
     return PS_SUCCESS;
 }
@@ -1182,13 +1191,19 @@ int32 matrixDtlsGetOutdata(ssl_t *ssl, unsigned char **buf)
         }
 
         /* A true flight resend is needed */
-        if ((rc = dtlsResendFlight(ssl, &tmp)) < 0)
+        rc = dtlsResendFlight(ssl, &tmp);
+        /* The resend may have replaced the buffer with a larger one, also
+            when it failed later on.  Never leave ssl->outbuf pointing to
+            the buffer that was freed */
+        ssl->outbuf = tmp.buf;
+        ssl->outsize = tmp.size;
+        if (rc < 0)
         {
+            ssl->outlen = 0;
+            *buf = NULL;
             return rc;
         }
-        ssl->outbuf = tmp.buf;
         ssl->outlen = tmp.end - tmp.start;
-        ssl->outsize = tmp.size;
     }
 
 /*
